@@ -170,6 +170,22 @@ def _hand_down(ctx):
                 key=f"DEFUSE|construct_tracts|{k}")
     args = [norm(a) for a in calls[0].args]
     ctx.shape(args[:2] == ['desc', 'trs'], 'DEFUSE', 'construct_tracts: Tract(desc, trs, ...)')
+    # a tract made by copying another one carries that one's orig_index
+    for a_ in walk_local(ct.node):
+        if isinstance(a_, ast.Assign) and isinstance(a_.targets[0], ast.Name):
+            cp = [c for c in ast.walk(a_.value) if isinstance(c, ast.Call)
+                  and (dotted(c.func) or '').split('.')[-1] in ('deepcopy', 'copy')]
+            if not cp:
+                continue
+            nm_ = a_.targets[0].id
+            appended = any(isinstance(c, ast.Call) and isinstance(c.func, ast.Attribute) and c.func.attr == 'append'
+                           and c.args and norm(c.args[0]) == nm_ for c in walk_local(ct.node))
+            renum = any(isinstance(x, ast.Assign) and norm(x.targets[0]) == f"{nm_}.orig_index" for x in walk_local(ct.node))
+            if appended:
+                ctx.check(renum, 'DEFUSE', f"construct_tracts: a copied tract (`{norm(cp[0])[:40]}`) gets its own orig_index",
+                          detail_bad=f"`{nm_}` is a copy of an earlier tract and `{nm_}.orig_index` is never assigned: all tracts "
+                                     f"cloned from one template share its orig_index",
+                          key="DEFUSE|construct_tracts|copied-tract", where=common.loc(ct, a_))
     # counter
     incs = [n for n in walk_local(ct.node) if isinstance(n, ast.AugAssign) and norm(n.target) == 'self.next_tract_uid']
     loop_of = lambda n: next((p for p in _parents(n) if isinstance(p, ast.For)), None)
@@ -211,7 +227,14 @@ def _hand_down(ctx):
     # orig_text is the parameter itself, not reassigned before
     first_text_store = [n for n in walk_local(init.node) if isinstance(n, ast.Assign)
                         and any(norm(x) == 'text' for x in n.targets)]
-    ctx.shape(not first_text_store, 'DEFUSE', 'PLSSParser.__init__ does not rebind `text`')
+    # a rebinding of `text` IN FRONT OF the statement that records it is what the tracts get as their original
+    before = [n for n in first_text_store if ot and n.lineno < ot[0].lineno and norm(ot[0].value) == 'text'
+              and norm(n.value) != 'text']
+    ctx.tri(not first_text_store, bool(before), 'DEFUSE', 'PLSSParser.__init__ records the text it was given as the original',
+            detail_bad=f"`{norm(before[0])[:70] if before else ''}` rewrites the text before `self.orig_text = text`: every tract's "
+                       f"orig_desc is the rewritten copy, not the text the description was created from",
+            key="DEFUSE|PLSSParser.__init__|orig-rebound", where=common.loc(init, before[0]) if before else None,
+            why='`text` is rebound after it was recorded')
     # PLSSDesc.parse -> PLSSParser(text=self.orig_desc, source=self.source)
     pp = ctx.repo.func('PLSSDesc.parse')
     calls = [c for c in walk_local(pp.node) if isinstance(c, ast.Call) and dotted(c.func) == 'PLSSParser']
@@ -222,7 +245,21 @@ def _hand_down(ctx):
             'PLSSDesc.parse parses the original text',
             detail_bad=f"PLSSParser receives text={kw.get('text')}: tracts record the preprocessed text as their original",
             key="DEFUSE|PLSSDesc.parse|text")
-    ctx.shape(kw.get('source') == 'self.source', 'DEFUSE', 'PLSSDesc.parse hands down the source tag')
+    try:
+        _c, kwx_ = _consumer_kwargs(ctx, pp, 'PLSSParser')
+    except AnalysisError:
+        kwx_ = {k.arg: k.value for k in calls[0].keywords if k.arg}
+    sv = kwx_.get('source')
+    if sv is None:
+        ctx.undecided('DEFUSE', 'PLSSDesc.parse hands down the source tag', 'no source= keyword reaches PLSSParser')
+    else:
+        lits = [(txt, pol) for _e, txt, pol in literals(guards(sv))]
+        by_truth = [txt for txt, pol in lits if txt in ('self.source', 'source') and pol]
+        ctx.tri(norm(sv) == 'self.source' and not lits, bool(by_truth), 'DEFUSE', 'PLSSDesc.parse hands down the source tag',
+                detail_bad=f"the source tag is handed to the parser only `if {by_truth[0] if by_truth else ''}`: a falsy but "
+                           f"legitimate tag (0, '', an empty tuple) is dropped and the tracts carry source=None while the "
+                           f"description keeps the real tag", key="DEFUSE|PLSSDesc.parse|source-truthy",
+                where=common.loc(pp, sv))
     pi = ctx.repo.func('PLSSDesc.__init__')
     t = [norm(s) for s in walk_local(pi.node) if isinstance(s, ast.Assign)]
     ctx.shape('self.orig_desc = raw_plss' in t and 'self.source = source' in t, 'DEFUSE',
